@@ -120,6 +120,10 @@ def sched_case(spec):
             p = core.run(argv, env=env, timeout=600)
             if p.timed_out:
                 raise Inconclusive("watchdog fired (threads=%d)" % threads)
+            if pin and p.rc != 0 and "taskset" in p.err:
+                # CPU pinning not permitted here: a harness limitation, not a verdict on the program
+                counters["pinning_unavailable"] = counters.get("pinning_unavailable", 0) + 1
+                continue
             counters["runs"] += 1
             what = "%s threads=%d jitter=%s pinned=%s" % (cbname, threads, jitter, pin)
             bad = model_check(cbname, p, dump, chain, coin)
